@@ -778,3 +778,294 @@ pub fn insn_from_json(v: &Value) -> Insn {
         ops: v["ops"].as_array().map(|a| a.iter().map(opd_from_json).collect()).unwrap_or_default(),
     }
 }
+
+// ------------------------------------------------------------------ shape enumeration
+
+fn rep_mems() -> Vec<Mem> {
+    let shapes = vec![
+        Shape::Direct(5),
+        Shape::Direct(0xFFFF),
+        Shape::Ind(R16::BX),
+        Shape::Ind(R16::BP),
+        Shape::Ind(R16::SI),
+        Shape::Ind(R16::DI),
+        Shape::Based(R16::BX, 3),
+        Shape::Based(R16::BP, -2),
+        Shape::Based(R16::BX, 0xFFFF),
+        Shape::Indexed(R16::SI, 1),
+        Shape::Indexed(R16::DI, -32768),
+        Shape::BasedIdx(R16::BX, R16::SI, None),
+        Shape::BasedIdx(R16::BP, R16::DI, Some(4)),
+        Shape::BasedIdx(R16::BX, R16::DI, Some(-7)),
+        Shape::BasedIdx(R16::BP, R16::SI, None),
+    ];
+    let mut v = Vec::new();
+    for s in shapes {
+        v.push(Mem { seg: None, shape: s });
+        for sg in SEGS {
+            v.push(Mem { seg: Some(sg), shape: s });
+        }
+    }
+    v
+}
+
+fn rep_regs(w: W, many: bool) -> Vec<Opd> {
+    match (w, many) {
+        (W::B, true) => R8S.iter().map(|r| Opd::R8(*r)).collect(),
+        (W::B, false) => vec![Opd::R8(R8::AL), Opd::R8(R8::CH)],
+        (W::W, true) => R16S.iter().map(|r| Opd::R16(*r)).collect(),
+        (W::W, false) => vec![Opd::R16(R16::AX), Opd::R16(R16::BP), Opd::R16(R16::SI)],
+    }
+}
+
+fn rep_imms(w: W, signed: bool) -> Vec<Opd> {
+    match (w, signed) {
+        (W::B, true) => [0u16, 1, 0x7F, 0x80, 0xFF].iter().map(|v| Opd::Imm(*v, ImmKind::SB)).collect(),
+        (W::B, false) => [0u16, 1, 0x80, 0xFF].iter().map(|v| Opd::Imm(*v, ImmKind::UB)).collect(),
+        (W::W, true) => [0u16, 1, 0x7FFF, 0x8000, 0xFFFF].iter().map(|v| Opd::Imm(*v, ImmKind::SW)).collect(),
+        (W::W, false) => [0u16, 1, 0x8000, 0xFFFF].iter().map(|v| Opd::Imm(*v, ImmKind::UW)).collect(),
+    }
+}
+
+fn two_op_shapes(mn: &'static str, signed: bool, out: &mut Vec<Insn>) {
+    for w in [W::B, W::W] {
+        let regs_many = rep_regs(w, true);
+        let regs_few = rep_regs(w, false);
+        let lab = Opd::Lab(w, LBL.to_string());
+        for a in &regs_few {
+            for b in &regs_many {
+                out.push(Insn::new(mn, vec![a.clone(), b.clone()]));
+            }
+        }
+        for m in rep_mems() {
+            out.push(Insn::new(mn, vec![regs_few[0].clone(), Opd::Mem(w, m)]));
+            out.push(Insn::new(mn, vec![Opd::Mem(w, m), regs_few[1].clone()]));
+        }
+        for r in &regs_many {
+            out.push(Insn::new(mn, vec![r.clone(), lab.clone()]));
+            out.push(Insn::new(mn, vec![lab.clone(), r.clone()]));
+        }
+        for i in rep_imms(w, signed) {
+            for r in &regs_few {
+                out.push(Insn::new(mn, vec![r.clone(), i.clone()]));
+            }
+            out.push(Insn::new(mn, vec![lab.clone(), i.clone()]));
+        }
+        let imms = rep_imms(w, signed);
+        for (k, m) in rep_mems().into_iter().enumerate() {
+            out.push(Insn::new(mn, vec![Opd::Mem(w, m), imms[k % imms.len()].clone()]));
+        }
+    }
+}
+
+fn one_op_shapes(mn: &'static str, out: &mut Vec<Insn>) {
+    for w in [W::B, W::W] {
+        for r in rep_regs(w, true) {
+            out.push(Insn::new(mn, vec![r]));
+        }
+        for m in rep_mems() {
+            out.push(Insn::new(mn, vec![Opd::Mem(w, m)]));
+        }
+        out.push(Insn::new(mn, vec![Opd::Lab(w, LBL.to_string())]));
+    }
+}
+
+/// name of the code label / procedure used by enumerated shapes
+pub const TGT: &str = "t_1";
+pub const PROC: &str = "p_1";
+
+/// The complete finite set of instruction shapes of syntax.md (canonical lower-case
+/// mnemonics; the caller renders every token in both cases).
+pub fn enumerate_shapes() -> Vec<Insn> {
+    let mut out: Vec<Insn> = Vec::new();
+    for mn in ["add", "adc", "sub", "sbb", "cmp"] {
+        two_op_shapes(mn, true, &mut out);
+    }
+    for mn in ["and", "or", "xor", "test"] {
+        two_op_shapes(mn, false, &mut out);
+    }
+    for mn in ["inc", "dec", "neg", "mul", "imul", "div", "idiv", "not"] {
+        one_op_shapes(mn, &mut out);
+    }
+    for mn in ["sal", "shl", "sar", "shr", "rol", "ror", "rcl", "rcr"] {
+        for w in [W::B, W::W] {
+            let counts = vec![Opd::Imm(0, ImmKind::UB), Opd::Imm(1, ImmKind::UB), Opd::Imm(255, ImmKind::UB), Opd::R8(R8::CL)];
+            for c in &counts {
+                for r in rep_regs(w, true) {
+                    out.push(Insn::new(mn, vec![r, c.clone()]));
+                }
+                out.push(Insn::new(mn, vec![Opd::Lab(w, LBL.to_string()), c.clone()]));
+            }
+            for (k, m) in rep_mems().into_iter().enumerate() {
+                out.push(Insn::new(mn, vec![Opd::Mem(w, m), counts[k % 2].clone()]));
+                out.push(Insn::new(mn, vec![Opd::Mem(w, m), Opd::R8(R8::CL)]));
+            }
+        }
+    }
+    // mov: the first 16 forms like two-operand arithmetic, then the segment register forms
+    two_op_shapes("mov", true, &mut out);
+    for s in SEGS {
+        for r in R16S {
+            out.push(Insn::new("mov", vec![Opd::Sr(s), Opd::R16(r)]));
+            out.push(Insn::new("mov", vec![Opd::R16(r), Opd::Sr(s)]));
+        }
+        for m in rep_mems() {
+            out.push(Insn::new("mov", vec![Opd::Sr(s), Opd::Mem(W::W, m)]));
+            out.push(Insn::new("mov", vec![Opd::Mem(W::W, m), Opd::Sr(s)]));
+        }
+        out.push(Insn::new("mov", vec![Opd::Sr(s), Opd::Lab(W::W, LBL.to_string())]));
+        out.push(Insn::new("mov", vec![Opd::Lab(W::W, LBL.to_string()), Opd::Sr(s)]));
+    }
+    // xchg
+    for w in [W::B, W::W] {
+        for a in rep_regs(w, false) {
+            for b in rep_regs(w, true) {
+                out.push(Insn::new("xchg", vec![a.clone(), b]));
+            }
+        }
+        for r in rep_regs(w, false) {
+            for m in rep_mems() {
+                out.push(Insn::new("xchg", vec![Opd::Mem(w, m), r.clone()]));
+                out.push(Insn::new("xchg", vec![r.clone(), Opd::Mem(w, m)]));
+            }
+            out.push(Insn::new("xchg", vec![Opd::Lab(w, LBL.to_string()), r.clone()]));
+            out.push(Insn::new("xchg", vec![r.clone(), Opd::Lab(w, LBL.to_string())]));
+        }
+    }
+    // push / pop
+    for r in R16S {
+        out.push(Insn::new("push", vec![Opd::R16(r)]));
+        out.push(Insn::new("pop", vec![Opd::R16(r)]));
+    }
+    for s in SEGS {
+        out.push(Insn::new("push", vec![Opd::Sr(s)]));
+        if s != Seg::CS {
+            out.push(Insn::new("pop", vec![Opd::Sr(s)]));
+        }
+    }
+    for m in rep_mems() {
+        out.push(Insn::new("push", vec![Opd::Mem(W::W, m)]));
+        out.push(Insn::new("pop", vec![Opd::Mem(W::W, m)]));
+    }
+    out.push(Insn::new("push", vec![Opd::Lab(W::W, LBL.to_string())]));
+    out.push(Insn::new("pop", vec![Opd::Lab(W::W, LBL.to_string())]));
+    // lea
+    for r in R16S {
+        for m in rep_mems() {
+            out.push(Insn::new("lea", vec![Opd::R16(r), Opd::Mem(W::W, m)]));
+        }
+        out.push(Insn::new("lea", vec![Opd::R16(r), Opd::Lab(W::W, LBL.to_string())]));
+    }
+    // singletons
+    for mn in ["lahf", "sahf", "pushf", "popf", "xlat", "aaa", "aad", "aam", "aas", "daa", "das", "cbw", "cwd", "stc", "clc", "cmc", "std", "cld", "sti", "cli", "hlt", "nop", "ret"] {
+        out.push(Insn::new(mn, vec![]));
+    }
+    // strings
+    for w in [W::B, W::W] {
+        for mn in ["movs", "lods", "stos", "cmps", "scas"] {
+            out.push(Insn::new(mn, vec![Opd::Wd(w)]));
+        }
+        for mn in ["movs", "lods", "stos"] {
+            out.push(Insn { prefix: Some("rep"), mn, ops: vec![Opd::Wd(w)] });
+        }
+        for p in ["repe", "repz", "repne", "repnz"] {
+            for mn in ["cmps", "scas"] {
+                out.push(Insn { prefix: Some(p), mn, ops: vec![Opd::Wd(w)] });
+            }
+        }
+    }
+    // jumps, loops, call, int
+    for mn in crate::refmodel::JCC_SPELLINGS.iter().chain(crate::refmodel::LOOP_SPELLINGS.iter()) {
+        out.push(Insn::new(mn, vec![Opd::Name(TGT.to_string())]));
+    }
+    out.push(Insn::new("call", vec![Opd::Name(PROC.to_string())]));
+    for n in [3u16, 0x10, 0x21] {
+        out.push(Insn::new("int", vec![Opd::Imm(n, ImmKind::UB)]));
+    }
+    out
+}
+
+/// render every token of an instruction in one fixed case, single blanks, numbers in the
+/// given radix (0 decimal, 1 hex, 2 binary)
+pub fn render_fixed(i: &Insn, upper: bool, radix: u8) -> String {
+    // choice stream: kw() consumes 1 byte (odd = upper); separators consume 1 (0 = single blank / none)
+    // numbers consume 1 (0 = decimal, 3 = hex, 5 = binary) -- emulate with a tiny custom renderer
+    fn num(v: u32, radix: u8) -> String {
+        match radix {
+            1 => format!("0x{:X}", v),
+            2 => format!("0b{:b}", v),
+            _ => format!("{}", v),
+        }
+    }
+    let k = |s: &str| if upper { s.to_uppercase() } else { s.to_string() };
+    let disp = |d: i32| if d < 0 { format!("{}", d) } else { num(d as u32, radix) };
+    let mem = |m: &Mem| {
+        let mut s = String::new();
+        if let Some(sr) = m.seg {
+            s.push_str(&k(sr.name()));
+            s.push(' ');
+        }
+        s.push('[');
+        match m.shape {
+            Shape::Direct(n) => s.push_str(&num(n as u32, radix)),
+            Shape::Ind(r) => s.push_str(&k(r.name())),
+            Shape::Based(r, d) | Shape::Indexed(r, d) => {
+                s.push_str(&k(r.name()));
+                s.push(',');
+                s.push_str(&disp(d));
+            }
+            Shape::BasedIdx(b, x, d) => {
+                s.push_str(&k(b.name()));
+                s.push(',');
+                s.push_str(&k(x.name()));
+                if let Some(d) = d {
+                    s.push(',');
+                    s.push_str(&disp(d));
+                }
+            }
+        }
+        s.push(']');
+        s
+    };
+    let mut s = String::new();
+    if let Some(p) = i.prefix {
+        s.push_str(&k(p));
+        s.push(' ');
+    }
+    s.push_str(&k(i.mn));
+    for (n, o) in i.ops.iter().enumerate() {
+        s.push_str(if n == 0 { " " } else { "," });
+        match o {
+            Opd::R8(r) => s.push_str(&k(r.name())),
+            Opd::R16(r) => s.push_str(&k(r.name())),
+            Opd::Sr(x) => s.push_str(&k(x.name())),
+            Opd::Imm(v, kind) => {
+                let (bits, signed) = match kind {
+                    ImmKind::SB => (8, true),
+                    ImmKind::UB => (8, false),
+                    ImmKind::SW => (16, true),
+                    ImmKind::UW => (16, false),
+                };
+                let v = if bits == 8 { *v & 0xFF } else { *v };
+                if signed && radix == 0 && (v as u32) >= (1 << (bits - 1)) && upper {
+                    s.push_str(&format!("{}", v as i32 - (1 << bits)));
+                } else {
+                    s.push_str(&num(v as u32, radix));
+                }
+            }
+            Opd::Mem(w, m) => {
+                s.push_str(&k(w.kw()));
+                s.push(' ');
+                s.push_str(&mem(m));
+            }
+            Opd::Lab(w, n) => {
+                s.push_str(&k(w.kw()));
+                s.push(' ');
+                s.push_str(n);
+            }
+            Opd::Name(n) => s.push_str(n),
+            Opd::Wd(w) => s.push_str(&k(w.kw())),
+        }
+    }
+    s
+}
